@@ -6,7 +6,7 @@ directories, the unit-operation cache, the converter stacks, the converter table
 decimalfp's default rounding mode, the ISO table read once at import, and per object
 the slots listed below (Term's `_normalized` / `_hash` are per-object memos, modelled
 by C07 as "normalisation and hashing are functions of the items").  Any further
-module-level or class-level mutable container, any function cache decorator
+module-level, class-level or per-instance mutable container, any function cache decorator
 (functools.cache / lru_cache / cached_property), any `global` statement, any mutable
 default argument and any new slot is state the models do not have: results could
 then depend on the history in ways no theorem here covers (C17: "results do not
@@ -47,6 +47,14 @@ EXPECTED = {
     ('term.py', '<module>', '_SUPERSCRIPT_CHARS'): 'constant list',
     ('term.py', 'Term', '__slots__'): "['_items', '_normalized', '_hash']",
 }
+# per-instance containers (assigned to an attribute of self / cls in a method)
+EXPECTED_ATTRS = {
+    ('__init__.py', 'QuantityMeta', '_unit_map'): 'rc_units / units of the class (Model/Registry.v)',
+    ('__init__.py', 'QuantityMeta', '_converters'): 'the converter stack (Model/ConvStack.v)',
+    ('money/__init__.py', 'MoneyConverter', '_rate_dict'): 'cv_table (Model/MoneyConv.v)',
+    ('registry.py', 'DefinedItemRegistry', '_item_def_map'): 'st_termmap / classes by dimension',
+    ('registry.py', 'DefinedItemRegistry', '_item_list'): 'registration order (ids)',
+}
 EXPECTED_DEFAULTS = {('__init__.py', '__mul__', '_UNIT_OP_CACHE'), ('__init__.py', '__truediv__', '_UNIT_OP_CACHE'),
                      ('__init__.py', '__new__', 'MappingProxyType({})'), ('__init__.py', '__init__', 'MappingProxyType({})'),
                      ('term.py', 'split', 'ONE')}
@@ -74,7 +82,7 @@ def mutable(v):
 
 
 def scan(root):
-    found, defaults, other = {}, set(), []
+    found, defaults, other, attrs = {}, set(), [], set()
     for fp in sorted(glob.glob(os.path.join(root, '**', '*.py'), recursive=True)):
         rel = os.path.relpath(fp, root)
         if rel == 'version.py':
@@ -91,6 +99,18 @@ def scan(root):
                 if tgt is not None and isinstance(tgt, ast.Name) and mutable(val) \
                         and tgt.id not in IGNORED_NAMES:
                     found[(rel, scope, tgt.id)] = ast.unparse(val)
+        for cls in [n for n in tree.body if isinstance(n, ast.ClassDef)]:
+            for m in [x for x in cls.body if isinstance(x, ast.FunctionDef)]:
+                for n in ast.walk(m):
+                    tgt = val = None
+                    if isinstance(n, ast.Assign) and len(n.targets) == 1:
+                        tgt, val = n.targets[0], n.value
+                    elif isinstance(n, ast.AnnAssign) and n.value is not None:
+                        tgt, val = n.target, n.value
+                    if tgt is not None and isinstance(tgt, ast.Attribute) \
+                            and isinstance(tgt.value, ast.Name) and tgt.value.id in ('self', 'cls') \
+                            and mutable(val):
+                        attrs.add((rel, cls.name, tgt.attr))
         for n in ast.walk(tree):
             if isinstance(n, (ast.FunctionDef, ast.AsyncFunctionDef, ast.ClassDef)):
                 for d in n.decorator_list:
@@ -104,12 +124,12 @@ def scan(root):
                     if mutable(d) or (isinstance(d, ast.Name) and d.id.isupper()) \
                             or (isinstance(d, ast.Call) and callee(d) == 'MappingProxyType'):
                         defaults.add((rel, n.name, ast.unparse(d)))
-    return found, defaults, other
+    return found, defaults, other, attrs
 
 
 def generate(init_path):
     root = os.path.dirname(init_path)
-    found, defaults, other = scan(root)
+    found, defaults, other, attrs = scan(root)
     problems = list(other)
     for k, v in found.items():
         if k not in EXPECTED:
@@ -119,11 +139,16 @@ def generate(init_path):
     for k in EXPECTED:
         if k not in found:
             problems.append(f"{k[0]}: {k[1]}.{k[2]} (modelled as {EXPECTED[k]}) is gone")
+    for a in sorted(attrs - set(EXPECTED_ATTRS)):
+        problems.append(f"{a[0]}: {a[1]} instances get a mutable container {a[2]} the models do not have")
+    for a in sorted(set(EXPECTED_ATTRS) - attrs):
+        problems.append(f"{a[0]}: {a[1]}.{a[2]} (modelled as {EXPECTED_ATTRS[a]}) is gone")
     for d in defaults - EXPECTED_DEFAULTS:
         problems.append(f"{d[0]}: default argument {d[2]} of {d[1]} is shared between calls")
     if problems:
         raise Unsupported("; ".join(problems))
-    lines = [f'  ("{k[0]}", "{k[1]}", "{k[2]}")' for k in sorted(found)]
+    lines = [f'  ("{k[0]}", "{k[1]}", "{k[2]}")' for k in sorted(found)] + \
+        [f'  ("{k[0]}", "{k[1]} instance", "{k[2]}")' for k in sorted(attrs)]
     return ("(* GENERATED by /verif/translate/inventory.py: the package's process-global and\n"
             "   per-object mutable state found in the source, all of it accounted for by the\n"
             "   models (see the generator for the counterparts).  Do not edit. *)\n"
